@@ -87,6 +87,20 @@ def _apply(model, op, k, s, depth_ops):
                     raise Boom()
         except Boom:
             pass
+    elif op == 7 and (k + s) % 2 == 1:            # a scoped block without any override still scopes what happens inside it
+        try:
+            with E.errstate():
+                if E.geterr() != model:
+                    return None
+                E.seterr(**{kind: state})
+                inner = dict(model)
+                inner[kind] = state
+                if E.geterr() != inner:
+                    return None
+                if s % 2 == 0:
+                    raise Boom()
+        except Boom:
+            pass
     elif op == 7:                                 # scoped override of everything
         inner = {q: state for q in model}
         with E.errstate(all=state):
